@@ -1,8 +1,11 @@
+import logging
 from typing import Optional, Type
 
 from indi.client.events import ValueUpdate
 from indi.device import values
 from indi.message import def_parts, one_parts
+
+logger = logging.getLogger(__name__)
 
 
 class Element:
@@ -87,9 +90,19 @@ class BLOB(Element):
     new_message_class = one_parts.OneBLOB
 
     def set_value_from_message(self, msg):
-        blob_value = values.BLOB.from_base64(msg.value, msg.format)
-        assert (
-            int(msg.size) == blob_value.size
-        ), f"Blob size differs: {msg.size} declared vs {blob_value.size} measured"
+        try:
+            blob_value = values.BLOB.from_base64(msg.value or "", msg.format)
+            size_matches = int(msg.size) == blob_value.size
+        except (ValueError, TypeError):
+            logger.warning("BLOB %s: undecodable payload or size, ignored", self.name)
+            return
+        if not size_matches:
+            logger.warning(
+                "BLOB %s: size differs: %s declared vs %s measured, ignored",
+                self.name,
+                msg.size,
+                blob_value.size,
+            )
+            return
 
         self._value = blob_value
